@@ -323,3 +323,66 @@ func identityPerm(n int) []int {
 	}
 	return p
 }
+
+// c20rename: the order of the named-metadata section is recomputed by EVERY print. For every
+// ordered pair (old, new) of a name set with digit runs, letters of both cases and leading zeros,
+// a module with named metadata {old, b2, a} is printed, the definition is renamed in place
+// (delete the key, set Name, insert under the new key), and the second print must equal the print
+// of a module built with the final names from scratch; the same with a definition added or removed
+// between the two prints.
+func c20rename(c *fw.Check) {
+	names := []string{"b1", "b10", "b01", "b3", "B1", "a0", "c", "a10", "0z"}
+	build := func(ns ...string) *ir.Module {
+		m := ir.NewModule()
+		for _, n := range ns {
+			m.NamedMetadataDefs[n] = &metadata.NamedDef{Name: n}
+		}
+		return m
+	}
+	type cse struct {
+		Old, New string
+		Edit     string
+		Want     string `json:"want"`
+		Got      string `json:"got"`
+		What     string `json:"what"`
+	}
+	n := 0
+	for _, old := range names {
+		for _, nw := range names {
+			if old == nw {
+				continue
+			}
+			for _, edit := range []string{"rename", "add", "remove"} {
+				n++
+				var m, ref *ir.Module
+				switch edit {
+				case "rename":
+					m = build(old, "b2", "a")
+					_ = m.String()
+					d := m.NamedMetadataDefs[old]
+					delete(m.NamedMetadataDefs, old)
+					d.Name = nw
+					m.NamedMetadataDefs[nw] = d
+					ref = build(nw, "b2", "a")
+				case "add":
+					m = build(old, "b2", "a")
+					_ = m.String()
+					m.NamedMetadataDefs[nw] = &metadata.NamedDef{Name: nw}
+					ref = build(old, nw, "b2", "a")
+				case "remove":
+					m = build(old, nw, "b2", "a")
+					_ = m.String()
+					delete(m.NamedMetadataDefs, old)
+					ref = build(nw, "b2", "a")
+				}
+				got, want := m.String(), ref.String()
+				c.Case("rename|"+old+"|"+nw+"|"+edit, got)
+				if got != want {
+					c.Violation("section-order/named-metadata/after-"+edit+"-between-prints", cse{Old: old, New: nw, Edit: edit, Want: want, Got: got, What: "the second print of a module whose named metadata changed after the first print differs from the print of a module built with the final names"})
+				}
+			}
+		}
+	}
+	c.Valid(int64(n))
+	c.Extra["named_metadata_edit_between_prints_cases"] = n
+}
